@@ -23,6 +23,7 @@ RULE = (
     "smooth, close, H/V); distinct by pieces+operators."
 )
 ASSUMPTIONS = [
+    "half of the appended shapes carry a transform of their own (similarity, reflection, translation; straight shapes also skew / stretch); arcs that went through the shape's d() text are compared within c07.arc_bound(6e-6) (KF-ARC-D-6DIGITS by the arc's conditioning)",
     "the oracle for the joined string is the library's own parser, which C01 checks against the reference interpreter",
     "append(str)/extend(str) are not among the operations the statement lists and are not asserted",
     "Path + Shape goes through the shape's d() text; arcs of rounded shapes are therefore compared at the 6-digit "
